@@ -198,6 +198,22 @@ func runC18() procxResult {
 			expect[job][name] = w
 		}
 	}
+	// names that are proper prefixes of one another, defined at different levels, must stay independent
+	os.Setenv("VP_TOKEN_FILE", "pr:/run/secrets/token")
+	os.Setenv("VP_NODE_ENV", "pr:production")
+	for job := 0; job < 2; job++ {
+		pipeEnv[job]["VP_TOKEN"] = fmt.Sprintf("pi%d:pipeline-token", job)
+		taskEnv[job]["VP_TOK"] = fmt.Sprintf("ta%d:task-tok", job)
+		taskEnv[job]["VP_NODE"] = fmt.Sprintf("ta%d:task-node", job)
+		pipeEnv[job]["VP_NODE_ENV_X"] = fmt.Sprintf("pi%d:longer", job)
+		expect[job]["VP_TOKEN_FILE"] = "pr:/run/secrets/token"
+		expect[job]["VP_NODE_ENV"] = "pr:production"
+		expect[job]["VP_TOKEN"] = pipeEnv[job]["VP_TOKEN"]
+		expect[job]["VP_TOK"] = taskEnv[job]["VP_TOK"]
+		expect[job]["VP_NODE"] = taskEnv[job]["VP_NODE"]
+		expect[job]["VP_NODE_ENV_X"] = pipeEnv[job]["VP_NODE_ENV_X"]
+	}
+	names = append(names, "VP_TOKEN_FILE", "VP_NODE_ENV", "VP_TOKEN", "VP_TOK", "VP_NODE", "VP_NODE_ENV_X")
 	var script []string
 	for _, n := range names {
 		script = append(script, fmt.Sprintf(`printf '%s=<<%%s>>;' "${%s-UNSET}"`, "I_"+n, n))
@@ -334,6 +350,7 @@ type chunkSpec struct {
 	size    int
 	newline bool
 	exec    bool
+	fail    bool // the command exits non-zero after it has written its output
 }
 
 func (c chunkSpec) command(letter byte) string {
@@ -354,6 +371,9 @@ func (c chunkSpec) command(letter byte) string {
 	}
 	if c.stderr {
 		cmd += " >&2"
+	}
+	if c.fail {
+		cmd = "{ " + cmd + "; }; exit 3"
 	}
 	return cmd
 }
@@ -379,13 +399,13 @@ func c19TaskSpecs(tier string) [][]chunkSpec {
 					if !ex && sz > 5000 {
 						continue // a command line of that length is not a realistic builtin invocation
 					}
-					tasks = append(tasks, []chunkSpec{{se, sz, nl, ex}})
+					tasks = append(tasks, []chunkSpec{{se, sz, nl, ex, false}})
 				}
 			}
 		}
 	}
 	// two and three commands per task over a reduced alphabet
-	small := []chunkSpec{{false, 1, false, false}, {true, 1, true, false}, {false, 4097, false, true}, {true, 4096, true, true}}
+	small := []chunkSpec{{false, 1, false, false, false}, {true, 1, true, false, false}, {false, 4097, false, true, false}, {true, 4096, true, true, false}}
 	for _, a := range small {
 		for _, b := range small {
 			tasks = append(tasks, []chunkSpec{a, b})
@@ -394,6 +414,11 @@ func c19TaskSpecs(tier string) [][]chunkSpec {
 	for _, a := range small {
 		tasks = append(tasks, []chunkSpec{a, small[2], small[1]}, []chunkSpec{small[0], a, small[3]})
 	}
+	// commands that fail after writing: the output written so far must be there, whether the task is
+	// allow_failure (the following commands still run) or not (the task stops)
+	f1 := chunkSpec{false, 5, true, false, true}
+	f2 := chunkSpec{true, 4097, false, true, true}
+	tasks = append(tasks, []chunkSpec{small[0], f1}, []chunkSpec{f1, small[0]}, []chunkSpec{small[1], f2}, []chunkSpec{small[2], f2, small[0]}, []chunkSpec{f1}, []chunkSpec{small[3], small[0], f1})
 	return tasks
 }
 
@@ -429,15 +454,21 @@ func runC19(tier string, part, parts int) procxResult {
 		for cp := 0; cp < 2; cp++ {
 			g := map[string][]string{}
 			sc := map[string][]string{}
+			allow := map[string]bool{}
 			for tn, cmds := range js.tasks {
 				g[tn] = nil
+				for _, c := range cmds {
+					if c.fail && cp == 0 {
+						allow[tn] = true // copy 0: allow_failure; copy 1: the task fails hard
+					}
+				}
 				var lines []string
 				for ci, c := range cmds {
 					lines = append(lines, c.command(letterOf(ji, cp, tn, ci)))
 				}
 				sc[tn] = lines
 			}
-			pipes[fmt.Sprintf("j%d_%d", ji, cp)] = PipeCfg{Conc: 1, QL: -1, Graph: g, Script: sc}
+			pipes[fmt.Sprintf("j%d_%d", ji, cp)] = PipeCfg{Conc: 1, QL: -1, Graph: g, Script: sc, Allow: allow, Continue: true}
 		}
 	}
 	defs := mkDefs(pipes)
@@ -467,18 +498,32 @@ func runC19(tier string, part, parts int) procxResult {
 				res.add("job-did-not-finish", fmt.Sprintf("output job %d/%d did not finish", ji, cp))
 				continue
 			}
-			if v.LastError != "" {
+			hasFail := false
+			for _, cmds := range js.tasks {
+				for _, c := range cmds {
+					if c.fail && cp == 1 {
+						hasFail = true
+					}
+				}
+			}
+			if v.LastError != "" && !hasFail {
 				res.add("job-failed", fmt.Sprintf("output job %d/%d failed: %s", ji, cp, v.LastError))
 			}
 			for tn, cmds := range js.tasks {
 				want := map[string][]byte{"stdout": nil, "stderr": nil}
+				expectFail := false
 				for ci, c := range cmds {
 					st := "stdout"
 					if c.stderr {
 						st = "stderr"
 					}
 					want[st] = append(want[st], c.expect(letterOf(ji, cp, tn, ci))...)
+					if c.fail && cp == 1 {
+						expectFail = true
+						break // not allow_failure: the task stops at the failing command
+					}
 				}
+				_ = expectFail
 				_, body := apiGet(pw.h, "GET", "/job/logs?id="+j.ID.String()+"&task="+url.QueryEscape(tn), "")
 				api, _ := decodeJSON(body).(map[string]interface{})
 				for _, st := range []string{"stdout", "stderr"} {
@@ -584,7 +629,10 @@ type treeShape struct {
 
 func c20Shapes(tier string) []treeShape {
 	leaf := "sleep 600"
-	child := []struct{ n, s string; leaves int }{
+	child := []struct {
+		n, s   string
+		leaves int
+	}{
 		{"fg", leaf, 1},
 		{"bg+wait", leaf + " & wait", 1},
 		{"bg-nowait+fg", leaf + " >/dev/null 2>&1 & " + leaf, 2},
@@ -592,7 +640,10 @@ func c20Shapes(tier string) []treeShape {
 		{"subshell", "( " + leaf + " )", 1},
 		{"trap-int", "trap '' INT; " + leaf, 1},
 	}
-	var level2 []struct{ n, s string; leaves int }
+	var level2 []struct {
+		n, s   string
+		leaves int
+	}
 	for _, a := range child {
 		level2 = append(level2, a)
 	}
@@ -602,7 +653,10 @@ func c20Shapes(tier string) []treeShape {
 				// nesting: a's leaf is replaced by another bash running b
 				inner := "bash -c '" + strings.ReplaceAll(b.s, "'", `'"'"'`) + "'"
 				s := strings.Replace(a.s, leaf, inner, 1)
-				level2 = append(level2, struct{ n, s string; leaves int }{a.n + ">" + b.n, s, a.leaves - 1 + b.leaves})
+				level2 = append(level2, struct {
+					n, s   string
+					leaves int
+				}{a.n + ">" + b.n, s, a.leaves - 1 + b.leaves})
 			}
 		}
 	} else {
@@ -610,7 +664,10 @@ func c20Shapes(tier string) []treeShape {
 			a, b := child[p[0]], child[p[1]]
 			inner := "bash -c '" + strings.ReplaceAll(b.s, "'", `'"'"'`) + "'"
 			s := strings.Replace(a.s, leaf, inner, 1)
-			level2 = append(level2, struct{ n, s string; leaves int }{a.n + ">" + b.n, s, a.leaves - 1 + b.leaves})
+			level2 = append(level2, struct {
+				n, s   string
+				leaves int
+			}{a.n + ">" + b.n, s, a.leaves - 1 + b.leaves})
 		}
 	}
 	var shapes []treeShape
@@ -704,7 +761,7 @@ func runC20(tier string, part, parts int) procxResult {
 					time.Sleep(20 * time.Millisecond)
 				}
 				if len(alive) > 0 {
-					res.add("process-survives-cancel:"+shapeClass(sh.name)+":"+mode, fmt.Sprintf("%s: the job was reported finished %v after the cancel, but %d of its processes are still alive %v later: %v", desc, reported.Round(time.Millisecond), len(alive), (killTimeout + 10*time.Second), alive))
+					res.add("process-survives-cancel:"+shapeClass(sh.name)+":"+mode, fmt.Sprintf("%s: the job was reported finished %v after the cancel, but %d of its processes are still alive %v later: %v", desc, reported.Round(time.Millisecond), len(alive), (killTimeout+10*time.Second), alive))
 				}
 			}
 			if by != nil {
